@@ -31,7 +31,7 @@ func TestMain(m *testing.M) { vt.Main(m) }
 
 // hangLimit is the per-input watchdog: the codecs are linear-time, any case
 // normally takes well under a millisecond.
-const hangLimit = 30 * time.Second
+const hangLimit = 60 * time.Second
 
 // codec is one family of public encode/decode entry points ("kind").
 //
